@@ -51,7 +51,7 @@ func signWith(kp *tlsgen.CertKeyPair, h *comm.Handshake) {
 }
 
 func unitC16(e common.Env, p *common.Part) {
-	p.Rule = "real listeners on 127.0.0.1 with identities registered in two domains; hostile connections interleaved with honest ones; field-level cases through the library's own client with a hostile AuthFunc (domain: other registered / unregistered / empty / boundary shifted into the identity / every registered identity, one of them registered without a domain, claiming every domain with its own valid signature; binding: zero / random / truncated / recorded on another connection; identity: unregistered, another node's certificate, PEM with leading garbage, non-PEM, RSA, Ed25519, P-384; signature: absent / random / by another registered key / over another binding / garbled), encoding-level cases through a raw TLS client (every truncation length of the encoded handshake [every 4th in quick], length-prefix lies, trailing bytes, whole-handshake replay); every connection then sends a frame with a unique marker; oracle: marker <-> connection <-> entitled identity table, judged after a fence of honest markers and a grace period; distinct key = (field, mutation, identity); non-trivial when the handshake differs from a valid one for that connection"
+	p.Rule = "real listeners on 127.0.0.1 with identities registered in two domains; hostile connections interleaved with honest ones; field-level cases through the library's own client with a hostile AuthFunc (domain: other registered / unregistered / empty / boundary shifted into the identity / every registered identity, one of them registered without a domain, claiming every domain with its own valid signature; binding: zero / random / truncated / recorded on another connection; identity: unregistered, another node's certificate, registered identities of several PEM blocks signed with the first / the last certificate's key, PEM with leading garbage, non-PEM, RSA, Ed25519, P-384; signature: absent / random / by another registered key / over another binding / garbled), encoding-level cases through a raw TLS client (every truncation length of the encoded handshake [every 4th in quick], length-prefix lies, trailing bytes, whole-handshake replay); every connection then sends a frame with a unique marker; oracle: marker <-> connection <-> entitled identity table, judged after a fence of honest markers and a grace period; distinct key = (field, mutation, identity); non-trivial when the handshake differs from a valid one for that connection"
 	p.Assumptions = append(p.Assumptions, "timestamp staleness is not in the property's list and is not judged; 'no attributed message' is bounded by a fence (honest markers sent afterwards have arrived) plus a grace period, so a slow machine can only cause a missed detection, never an alarm")
 	if !e.Mine(0) {
 		return
@@ -86,6 +86,14 @@ func unitC16(e common.Env, p *common.Part) {
 	// an identity registered WITHOUT a domain (node 12 in the empty domain) and nowhere else
 	nodom, _ := env.ca.NewClientCertKeyPair()
 	env.p2id[lookupKey("", nodom.Cert)] = 12
+	// identities that consist of several PEM blocks (a certificate followed by another one, e.g. its issuer's): the key that
+	// speaks for the identity is the first certificate's; nodes 13 and 14
+	k1, _ := env.ca.NewClientCertKeyPair()
+	k2, _ := env.ca.NewClientCertKeyPair()
+	chain := append(append([]byte{}, k1.Cert...), k2.Cert...)
+	chain3 := append(append(append([]byte{}, k1.Cert...), []byte("-----BEGIN PUBLIC KEY-----\nAAAA\n-----END PUBLIC KEY-----\n")...), k2.Cert...)
+	env.p2id[lookupKey("dom", chain)] = 13
+	env.p2id[lookupKey("dom", chain3)] = 14
 	unreg, _ := env.ca.NewClientCertKeyPair() // a valid certificate of the same CA that is not registered
 	n2, n3, n5 := env.nodes[2], env.nodes[3], env.nodes[5]
 
@@ -214,6 +222,20 @@ func unitC16(e common.Env, p *common.Part) {
 		p384sign(&h)
 		return h
 	}, Entitled: 9, EntDom: "dom"})
+	for _, mc := range []struct {
+		name string
+		id   []byte
+		node uint16
+	}{{"two certificates", chain, 13}, {"certificate, another PEM block, certificate", chain3, 14}} {
+		mc := mc
+		add(c16case{Field: "none", Mutation: "registered identity of " + mc.name + ", signed with the first certificate's key", Domain: "dom", Auth: func(b []byte) comm.Handshake {
+			h := comm.Handshake{Domain: "dom", TLSBinding: b, Identity: mc.id, Timestamp: time.Now().Unix()}
+			signWith(k1, &h)
+			return h
+		}, Entitled: mc.node, EntDom: "dom"})
+		identity("registered identity of "+mc.name+", signed with the LAST certificate's key", mc.id, func(h *comm.Handshake) { signWith(k2, h) })
+		identity("registered identity of "+mc.name+", signed with an unrelated registered key", mc.id, func(h *comm.Handshake) { signWith(n2.ident, h) })
+	}
 	// --- signature
 	sigCase := func(name string, f func(h *comm.Handshake, b []byte)) {
 		add(c16case{Field: "signature", Mutation: name, Domain: "dom", Auth: func(b []byte) comm.Handshake {
